@@ -63,7 +63,7 @@ def pipeline_cases(spec, records, cid0):
         events = []
         for r in recs:
             if r["op"] == "solve":
-                events.append({"e": "solve", "jit": bool(r["jit"]), "n": r["n"], "shapes": r["shapes"], "V": r["V"]})
+                events.append({"e": "solve", "jit": bool(r["jit"]), "n": r["n"], "shapes": r["shapes"], "V": r["V"], "ccv": []})
             else:
                 fr = r["frame"]
                 src = solves.get(r.get("vfrom"))
@@ -75,7 +75,7 @@ def pipeline_cases(spec, records, cid0):
                                "targets": [], "cols": fr["cols"], "index": fr["index"], "rows": fr["rows"], "index_names": fr["index_names"]})
         if events:
             cases.append({"cid": cid0 + len(cases), "mdl": m, "groups": ["solve", "c02", "c03"], "tol": TOL_EXACT, "reltol": TOL_EXACT,
-                          "events": events})
+                          "events": events, "diag_ccv": False})
     return cases
 
 
